@@ -13,7 +13,7 @@ pub fn def() -> CheckDef {
         bounds_quick: "source hypergraph W<=2, X<=2, S,T<=2; target W<=3, X<=2, S,T<=2; node and edge maps with symbolic tables and symbolic codomains (typed or mistyped)",
         bounds_thorough: "target W<=4, X<=3, S,T<=3; source W<=3, X<=2",
         jobs,
-        budget_s: (170, 3000),
+        budget_s: (170, 1500),
     }
 }
 
@@ -120,7 +120,7 @@ fn oracle(inp: &PV, out: &PV) -> T {
 pub fn jobs(tier: Tier, seed: u64) -> Vec<Job> {
     let per_job = Duration::from_secs(match tier {
         Tier::Quick => 60,
-        Tier::Thorough => 1200,
+        Tier::Thorough => 600,
     });
     let cfg = base_cfg(tier);
     let (src_box, tgt_box, tm_) = match tier {
